@@ -41,6 +41,11 @@ M = [
     # ---- C18
     ("c18_wrap_zero", "C18", "session/id_counter.go", "\tif c.next == 0 {\n\t\tc.next++\n\t}", "\tif c.next == 0 && false {\n\t\tc.next++\n\t}"),
     ("c18_delete_dir", "C18", "session/memory_session.go", "\ts.storeForDirection(dir).Delete(id)", "\ts.storeForDirection(Outgoing).Delete(id)"),
+    # ---- C07
+    ("c07_puback_early", "C07", "broker/client.go", "\t\t// publish message and queue puback if ack is called\n\t\terr := c.backend.Publish(c, &publish.Message, ack)", "\t\t// publish message and queue puback if ack is called\n\t\tack()\n\t\terr := c.backend.Publish(c, &publish.Message, ack)"),
+    ("c07_pubrec_before_save", "C07", "broker/client.go", "\t\t// store received publish packet in session\n\t\terr := c.session.SavePacket(session.Incoming, publish)\n\t\tif err != nil {\n\t\t\treturn c.die(SessionError, err)\n\t\t}\n\n\t\t// prepare pubrec packet\n\t\tpubrec := packet.NewPubrec()\n\t\tpubrec.ID = publish.ID\n\n\t\t// signal qos 2 pubrec\n\t\terr = c.send(pubrec, true)\n\t\tif err != nil {\n\t\t\treturn c.die(TransportError, err)\n\t\t}", "\t\t// prepare pubrec packet\n\t\tpubrec := packet.NewPubrec()\n\t\tpubrec.ID = publish.ID\n\n\t\t// signal qos 2 pubrec\n\t\terr := c.send(pubrec, true)\n\t\tif err != nil {\n\t\t\treturn c.die(TransportError, err)\n\t\t}\n\n\t\t// store received publish packet in session\n\t\terr = c.session.SavePacket(session.Incoming, publish)\n\t\tif err != nil {\n\t\t\treturn c.die(SessionError, err)\n\t\t}"),
+    ("c07_no_pubcomp_unknown", "C07 C20", "broker/client.go", "\t\t// immediately send pubcomp for missing packets\n\t\terr = c.send(pubcomp, true)\n\t\tif err != nil {\n\t\t\treturn c.die(TransportError, err)\n\t\t}\n\n\t\treturn nil", "\t\treturn nil"),
+    ("c07_delete_after_pubcomp", "C07", "broker/client.go", "\t\t\terr := c.session.DeletePacket(session.Incoming, id)\n\t\t\tif err != nil {\n\t\t\t\t_ = c.die(SessionError, err)\n\t\t\t\treturn\n\t\t\t}\n\n\t\t\t// queue pubcomp\n\t\t\tselect {\n\t\t\tcase c.ackQueue <- pubcomp:\n\t\t\tcase <-c.tomb.Dying():\n\t\t\t}", "\t\t\t// queue pubcomp\n\t\t\tselect {\n\t\t\tcase c.ackQueue <- pubcomp:\n\t\t\tcase <-c.tomb.Dying():\n\t\t\t}\n\t\t\tgo func() { time.Sleep(time.Millisecond); _ = c.session.DeletePacket(session.Incoming, id) }()"),
     # ---- C20
     ("c20_suback_reversed", "C20", "broker/client.go", "\t\tsuback.ReturnCodes[i] = subscription.QOS", "\t\tsuback.ReturnCodes[len(pkt.Subscriptions)-1-i] = subscription.QOS"),
     ("c20_ignore_unexpected", "C20", "broker/client.go", "\tdefault:\n\t\terr = c.die(ClientError, ErrUnexpectedPacket)\n\t}\n\n\t// return eventual error", "\tdefault:\n\t}\n\n\t// return eventual error"),
